@@ -114,7 +114,7 @@ func init() {
 	var nSeeds int
 	mon.Register(&mon.Check{
 		ID: "C07",
-		Rule: "evaluations = Lint*Ex calls; for each object the full-registry run is compared, lint by lint (status and details), with runs under filtered registries - every lint ALONE (one single-lint registry per lint of the object's kind) and seeded multi-lint filters (name-sorted execution order vs registration order) - plus 'no result for unselected lints' and 'flags of the filtered run are a subset of the full run's'. distinct_nontrivial = distinct objects with >= 1 lint beyond NA that went through the comparison.",
+		Rule: "evaluations = Lint*Ex calls; for each object the full-registry run is compared, lint by lint (status and details), with runs under filtered registries - every lint ALONE (one single-lint registry per lint of the object's kind) and seeded multi-lint filters (name-sorted execution order vs registration order) - plus 'no result for unselected lints' and 'flags of the filtered run are a subset of the full run's'. distinct_nontrivial (de-duplicated by a hash of the DER bytes within each worker process) = distinct objects with >= 1 lint beyond NA that went through the comparison.",
 		Assumptions: []string{"a UTC date change between two compared runs may move only the two clock-reading AIA lints; such differences are dropped"},
 		Setup: func(c *mon.Ctx) error {
 			if err := c07Setup(c); err != nil {
@@ -161,7 +161,7 @@ func init() {
 				c07Compare(c, o, full, ff, f.reg, f.label, desc, day)
 			}
 			if nontrivial(full) {
-				c.R.Count("distinct_nontrivial", 1)
+				c.CountDistinct(o.DER)
 			}
 			if i%1501 == 0 {
 				c.R.Sample(6, map[string]any{"kind": o.Kind.String(), "input": o.Name, "edits": desc, "statuses": statusSetKey(full), "filters": nf})
